@@ -44,7 +44,7 @@ def extract(ctx):
     t = rw.sub(s.text, r'd1::task\* arena_slot::get_task\(execution_data_ext& ed, isolation_type isolation\)', 'task* slot_get_task(struct aslot* self, execution_data_ext* ed, isolation_type isolation)', 1, 1, name='sig')
     t = rw.sub(t, r'T = --tail;', 'T = ATOMIC_PREDEC(self->tail);', 1, 1, name='atomic --')
     t = rw.sub(t, r'(?<![\w.>])(tail|head)\.load\([^)]*\)', r'ATOMIC_LOAD(self->\1)', 4, name='atomic-load')
-    t = rw.sub(t, r'(?<![\w.>])(tail|head)\.store\(([^;]*?), std::memory_order_\w+\);', r'ATOMIC_STORE(self->\1, \2);', 3, 3, name='atomic-store')
+    t = rw.sub(t, r'(?<![\w.>])(tail|head)\.store\(([^;]*?), std::memory_order_\w+\);', r'ATOMIC_STORE(self->\1, \2);', 0, None, name='atomic-store')
     t = rw.sub(t, r'(?<![\w.>])task_pool_ptr\b', 'self->task_pool_ptr', 1, name='field')
     t = rw.sub(t, r'(?<![\w.>])(acquire_task_pool|release_task_pool|reset_task_pool_and_leave|publish_task_pool)\(\)', r'slot_\1(self)', 5, name='method')
     t = rw.sub(t, r'(?<![\w.>])(is_task_pool_published|is_quiescent_local_task_pool_reset)\(\)', r'slot_\1(self)', 3, name='method')
@@ -62,7 +62,7 @@ def extract(ctx):
     sliced.append('%s:%d arena_slot::reset_task_pool_and_leave' % (ASH, s.line))
     t = rw.sub(s.text, r'void reset_task_pool_and_leave\(\)', 'void slot_reset_task_pool_and_leave(struct aslot* self)', 1, 1, name='sig')
     t = rw.sub(t, r'(?s)__TBB_ASSERT\(.*?\);', 'RG_NOP();', 0, name='lock-ownership assert -> RG_NOP')
-    t = rw.sub(t, r'(?<![\w.>])(tail|head)\.store\(([^;]*?), std::memory_order_\w+\);', r'ATOMIC_STORE(self->\1, \2);', 2, 2, name='atomic-store')
+    t = rw.sub(t, r'(?<![\w.>])(tail|head)\.store\(([^;]*?), std::memory_order_\w+\);', r'ATOMIC_STORE(self->\1, \2);', 0, None, name='atomic-store')
     t = rw.sub(t, r'leave_task_pool\(\);', 'slot_leave_task_pool(self);', 1, 1, name='method')
     out.insert(0, t)
     common.write(ctx, 'get_task.inc', 'task* slot_get_task_impl(struct aslot* self, size_t T, execution_data_ext* ed, bool* tasks_omitted, isolation_type isolation);\n' + '\n'.join(out) + '\n')
@@ -154,7 +154,7 @@ def extract_steal(ctx, sliced, fired):
     t = rw.sub(t, r'unlock_task_pool\(victim_pool\);', 'slot_unlock_task_pool(self, victim_pool);', 1, 1, name='method')
     t = rw.sub(t, r'H = \+\+head;', 'H = ATOMIC_PREINC(self->head);', 1, 1, name='atomic ++')
     t = rw.sub(t, r'(?<![\w.>])(tail|head)\.load\([^)]*\)', r'ATOMIC_LOAD(self->\1)', 2, name='atomic-load')
-    t = rw.sub(t, r'(?<![\w.>])head\.store\(\s*(?:/\*[^*]*\*/)?\s*([^;]*?), std::memory_order_\w+\s*\);', r'ATOMIC_STORE(self->head, \1);', 2, 2, name='atomic-store')
+    t = rw.sub(t, r'(?<![\w.>])head\.store\(\s*(?:/\*[^*]*\*/)?\s*([^;]*?), std::memory_order_\w+\s*\);', r'ATOMIC_STORE(self->head, \1);', 0, None, name='atomic-store')
     t = rw.sub(t, r'__TBB_ASSERT\( !is_poisoned\( result \), nullptr \);', 'RG_NOP();', 1, 1, name='poison check (debug only) -> RG_NOP')
     t = rw.sub(t, r'poison_pointer\( victim_pool\[[^\]]*\] \);', 'RG_NOP();', 2, 2, name='poison_pointer (no-op in release builds) -> RG_NOP')
     t = rw.sub(t, r'task_accessor::isolation\(\*result\)', 'TASK_ISOLATION(result)', 1, 1, name='accessor')
@@ -192,16 +192,19 @@ def build(ctx):
                           ('unlock_task_pool', 'unlock', False), ('leave_task_pool', 'leave', False), ('publish_task_pool', 'publish', False))] + [
         Job('pool.get_task.any_size', C, 'h_get_task_lc', route='LC', loops=True, nloops=1, defines=['GTLC'], target='arena_slot::get_task + get_task_impl + reset_task_pool_and_leave (owner side, any pool size)', source=ASC, timeout=900),
         Job('the.owner', C, 'h_the_owner', route='RG', loops=True, nloops=1, defines=['THE_OWNER'], target='arena_slot::get_task (+ get_task_impl, reset_task_pool_and_leave) against any number of thieves: arbitration for one arbitrary slot', source=ASC, timeout=900),
+        Job('the.thief', C, 'h_the_thief', route='RG', loops=True, nloops=1, defines=['THE_THIEF'], target='arena_slot::steal_task against the owner and other thieves: arbitration for one arbitrary slot', source=ASC, timeout=900),
         Job('pool.steal_task', C, 'h_steal', route='LC', loops=True, nloops=1, defines=['STEAL'], target='arena_slot::steal_task (thief side, any pool size)', source=ASC, timeout=600),
         Job('proxy.extract', C, 'h_extract', route='RG', defines=['PROXY'], target='task_proxy::extract_task<pool_bit|mailbox_bit> (two-sided claim)', source=MB),
     ]
     return {
         'jobs': jobs, 'sliced': sliced, 'fired': fired,
-        'trusted': ['acquire/release/publish/leave_task_pool: lock stubs (the owner/thief arbitration on head/tail/lock word is not modelled: owner alone)', 'small_object_allocator::delete_object stub', 'SC atomics'],
-        'drops': ['poison_pointer (no-op in release builds)', 'thief-quiescence assertions', 'template<intptr_t from_bit> -> parameter'],
-        'not_decided': ['owner/thief arbitration on head/tail/lock word in get_task/steal_task (multi-word, fence dependent)', 'mailbox MPSC list', 'task_stream', 'the dispatch loop', 'task_arena::execute delegation',
-                        'wait_context / reference_vertex counting', 'fold_tree', 'visibility of writes at the wait', 'get_task for pools larger than the bound (bounded stand-in only)'],
-        'assumptions': ['tasks in the pool are ordinary tasks or proxies whose extraction is delegated to the stub'],
+        'trusted': ['SC atomics (the real code relies on the full fences of --tail / ++head)', 'in the any-size and THE jobs the pool lock operations are stubs with the semantics proved in lock.*',
+                    'spawn (not sliced) writes only slots at or above tail and only outside get_task', 'indices below 2^41', 'proxy / mailbox idle flags: pure stubs', 'small_object_allocator::delete_object stub'],
+        'drops': ['poison_pointer (no-op in release builds)', 'thief-quiescence and head/tail consistency debug assertions in the THE jobs (obligations of the any-size jobs)', 'template<intptr_t from_bit> -> parameter',
+                  'pool element accesses -> POOL_RD/POOL_WR, task attribute reads -> TASK_* accessor macros (representation of the pool by per-index arrays)'],
+        'not_decided': ['prepare_task_pool relocation, spawn', 'mailbox MPSC list', 'task_stream', 'the dispatch loop', 'task_arena::execute delegation', 'wait_context / reference_vertex counting', 'fold_tree',
+                        'visibility of writes at the wait', '"nothing lost" under concurrent stealing (at-most-once is proved concurrently; nothing-lost per function without a concurrent taker)'],
+        'assumptions': ['tasks in a pool are pairwise distinct (representation by per-index arrays)', 'proxies in the any-size owner job yield their task through a stub that hands it out at most once'],
     }
 
 
